@@ -284,12 +284,22 @@ func (cc *cacheController) flush() {
 	cc.read.Reset()
 	cc.write.Reset()
 	for k, sem := range cc.rlockSems {
+		cc.dropUnvalidatedLine(k)
 		sem.RUnlock()
 		delete(cc.rlockSems, k)
 	}
 	for k, sem := range cc.lockSems {
+		cc.dropUnvalidatedLine(k)
 		sem.Unlock()
 		delete(cc.lockSems, k)
+	}
+}
+
+// dropUnvalidatedLine removes a line that an aborted transfer already pushed
+// to L1 while its MSI state was not set yet.
+func (cc *cacheController) dropUnvalidatedLine(addr comp.AlignedAddress) {
+	if cc.msi.states[msiEntry{cc.id, addr}] == invalid {
+		_, _ = cc.l1d.EvictCacheLine(addr)
 	}
 }
 
